@@ -63,7 +63,7 @@ NOT_COVERED = {
     'SymbolSegmentHeader': 'NITF 2.0 symbol subheader: DLUT code path cannot run (struct.unpack without format); byte-level oracle only',
     'TREHeader': 'not used by any header class',
     'TREList': 'a sequence of TRE envelopes filling a blob: covered by decodeAll_encodeAll on the UnknownTRE description',
-    'registered TREs': 'field layout of the ~90 registered TRE classes is data-dependent Python control flow: not modelled',
+    'registered TREs': 'field layout of the registered TRE classes: translated by translate/tables_tre.py (Gen/TreTables.lean), see notes/NOTES_TRE.md',
 }
 # property-backed fields whose setter does not reveal the kind (constant / derived fields)
 HAND_KINDS = {('NITFHeader', 'FHDR'): 'str', ('NITFHeader', 'FVER'): 'str', ('NITFHeader', 'NUMX'): 'int', ('NITFHeader', 'HL'): 'int',
